@@ -428,7 +428,7 @@ class Translator:
             raise Unsupported('not a function')
         pyargs = [a.arg for a in node.args.args if a.arg not in ('self', 'cls')]
         declared = spec['args']
-        if 'expr_of' not in spec and [a for a, _ in declared] != pyargs:
+        if not ({'expr_of', 'arg_of', 'if_test'} & set(spec)) and [a for a, _ in declared] != pyargs:
             raise Unsupported(f'{spec["py"]}: parameters are now {pyargs}, kernel table says {[a for a, _ in declared]}')
         cx = Ctx(dict(declared), self.funcs, self.consts, spec.get('selfattrs', {}), spec.get('raises', False),
                  self.pyctr_errs)
@@ -442,7 +442,23 @@ class Translator:
             params.append(('self_' + a.lstrip('_'), spec['selfattrs'][a]))
         for a, ty in declared:
             params.append((self.vname(a), ty))
-        if 'expr_of' in spec:
+        if 'arg_of' in spec or 'if_test' in spec:
+            if 'arg_of' in spec:
+                found = [n.args[0] for n in ast.walk(node)
+                         if isinstance(n, ast.Call) and isinstance(n.func, ast.Attribute) and n.func.attr == spec['arg_of']
+                         and n.args and not isinstance(n.args[0], ast.Name)]
+            else:
+                tests = [n.test for n in node.body if isinstance(n, ast.If)]
+                found = tests[spec['if_test']:spec['if_test'] + 1]
+            if len(found) != 1:
+                raise Unsupported(f'{spec["py"]}: {len(found)} candidate expressions for {spec["coq"]}')
+            body, rtype = self.expr(found[0], cx)
+            if 'if_test' in spec:
+                body = self.as_bool(body, rtype)
+                rtype = BOOL
+            if cx.rettype and rtype != cx.rettype:
+                raise Unsupported('expr type')
+        elif 'expr_of' in spec:
             target = spec['expr_of']
             found = []
             for n in ast.walk(node):
